@@ -1,6 +1,6 @@
 //! Flow throttling cases: a resource guarded by flow throttling rules only, on the virtual
 //! nanosecond clock; serves C07 (flow part).
-//! case: tag base_ms nrules { id thr_bits maxq_ms stat_ms }*   ops: B batch | A dt_ns
+//! case: tag base_ms nrules { id thr_bits maxq_ms stat_ms }*   ops: B batch | A dt_ns | Z mode (reload Eq-equal rules; prints nothing)
 //! out : n ids..  then B -> 0 clock_ns | 1 rule clock_ns ; A -> 3 ; panic -> -1   (clock since base)
 use crate::util::*;
 use crate::world::{num_id, rule_id_of_msg};
@@ -16,20 +16,29 @@ pub fn run_case(t: &mut Toks) -> Vec<i128> {
     clock::set_ms(base);
     let name = format!("t{}", tag);
     let nr = t.usize();
-    let mut rules = Vec::new();
+    let mut specs: Vec<(u64, f64, u32, u32)> = Vec::new();
     for _ in 0..nr {
-        let (id, thr, maxq, stat) = (t.u64(), t.f64bits(), t.u32(), t.u32());
-        rules.push(Arc::new(flow::Rule {
-            id: format!("T{}", id),
-            resource: name.clone(),
-            threshold: thr,
-            calculate_strategy: flow::CalculateStrategy::Direct,
-            control_strategy: flow::ControlStrategy::Throttling,
-            max_queueing_time_ms: maxq,
-            stat_interval_ms: stat,
-            ..Default::default()
-        }));
+        specs.push((t.u64(), t.f64bits(), t.u32(), t.u32()));
     }
+    let mk = |z: u64, res: &String| -> Vec<Arc<flow::Rule>> {
+        specs
+            .iter()
+            .map(|(id, thr, maxq, stat)| {
+                Arc::new(flow::Rule {
+                    id: format!("T{}", id + 100000 * z),
+                    resource: res.clone(),
+                    threshold: *thr,
+                    calculate_strategy: flow::CalculateStrategy::Direct,
+                    control_strategy: flow::ControlStrategy::Throttling,
+                    max_queueing_time_ms: *maxq,
+                    stat_interval_ms: *stat,
+                    ..Default::default()
+                })
+            })
+            .collect()
+    };
+    let rules = mk(0, &name);
+    let mut zcount = 0u64;
     let _ = flow::load_rules_of_resource(&name, rules);
     let lr = flow::get_rules_of_resource(&name);
     out.push(lr.len() as i128);
@@ -60,6 +69,27 @@ pub fn run_case(t: &mut Toks) -> Vec<i128> {
                 clock::advance_ns(dt as i128);
                 out.push(3);
             }
+            "Z" => {
+                let mode = t.u64();
+                zcount += 1;
+                let r = guarded(|| {
+                    let mut rs = mk(zcount, &name);
+                    rs.reverse();
+                    if mode == 0 {
+                        let _ = flow::load_rules_of_resource(&name, rs);
+                    } else {
+                        if mode == 2 && zcount % 2 == 1 {
+                            let other = format!("tz{}", tag);
+                            rs.extend(mk(zcount, &other));
+                        }
+                        flow::load_rules(rs);
+                    }
+                });
+                if r.is_none() {
+                    out.push(-1);
+                    break;
+                }
+            }
             x => panic!("bad op {}", x),
         }
     }
@@ -67,5 +97,7 @@ pub fn run_case(t: &mut Toks) -> Vec<i128> {
         let _ = guarded(|| e.exit());
     }
     let _ = guarded(|| flow::clear_rules_of_resource(&name));
+    let other = format!("tz{}", tag);
+    let _ = guarded(|| flow::clear_rules_of_resource(&other));
     out
 }
